@@ -353,6 +353,38 @@ pub fn gas_ctors<const P: u8>() {
     kani::cover!(true, "REACHED");
 }
 
+/// public size helpers must state the number of bytes the structure serialises to
+pub fn len_helpers<const P: u8>() {
+    if P == 2 {
+        let facs: Rec<70> = Rec::of(&acpi_tables::facs::FACS::new());
+        let rsdp: Rec<40> = Rec::of(&acpi_tables::rsdp::Rsdp::new(kani::any(), kani::any()));
+        let (g, _e) = sym_gas();
+        let gas: Rec<16> = Rec::of(&g);
+        let srv: Rec<104> = Rec::of(&acpi_tables::tpm2::TpmServer1_2::new([0; 6], [0; 8], 0));
+        let fadt: Rec<280> = Rec::of(&acpi_tables::fadt::FADTBuilder::new([0; 6], [0; 8], 0).finalize());
+        verdicts! {
+            "C02: FACS::len() equals the bytes emitted": acpi_tables::facs::FACS::len() == facs.len,
+            "C02: Rsdp::len() equals the bytes emitted": acpi_tables::rsdp::Rsdp::len() == rsdp.len,
+            "C02: GAS::len() equals the bytes emitted": acpi_tables::gas::GAS::len() == gas.len,
+            "C02: TpmServer1_2::len() equals the bytes emitted": acpi_tables::tpm2::TpmServer1_2::len() == srv.len,
+            "C02: FADT::len() equals the bytes emitted": acpi_tables::fadt::FADT::len() == fadt.len,
+        }
+    }
+    kani::cover!(true, "REACHED");
+}
+
+/// RHCT ISA string node built through its own public constructor (not only through add_isa_string)
+pub fn isa_node<const P: u8>() {
+    if P == 4 {
+        let (s, bytes) = sym_static_str::<5>();
+        let n = acpi_tables::rhct::IsaStringNode::new(s);
+        let r: Rec<20> = Rec::of(&n);
+        let e = crate::kinds::rhct::isa_exp::<5>(&bytes);
+        assert!(r.eq_bytes(&e.b, e.n), "C04: image equals the specification-derived reference encoding");
+    }
+    kani::cover!(true, "REACHED");
+}
+
 // ------------------------------------------------------------------------------ FADT
 /// expected values of the FADT fields the builder API can set (everything else is zero)
 #[derive(Clone, Copy)]
